@@ -10,6 +10,7 @@ import (
 	ap "github.com/go-ap/activitypub"
 
 	"verif/internal/engine"
+	"verif/internal/universe"
 )
 
 // C06 — natural-language text survives both codecs byte for byte (DESIGN.md §3 C06).
@@ -45,7 +46,7 @@ var c06Positions = []c06Pos{
 }
 
 // forms: how the text under test is placed in the language list
-var c06Forms = []string{"single-untagged", "single-tagged", "map-first", "map-second", "map-cased-tags", "untagged+tagged", "tagged+untagged"}
+var c06Forms = []string{"single-untagged", "single-tagged", "map-first", "map-second", "map-cased-tags", "untagged+tagged", "tagged+untagged", "same-text-untagged+tagged", "same-text-two-tags"}
 
 var c06Channels = []string{"json-pkg", "json-method", "gob", "json-then-gob"}
 
@@ -67,6 +68,11 @@ func c06Build(p c06Pos, form string, text []byte) any {
 	case "tagged+untagged":
 		// ... and here the untagged one
 		n = ap.NaturalLanguageValues{{Ref: "fr", Value: ap.Content("autre texte")}, {Ref: ap.NilLangRef, Value: ap.Content(text)}}
+	case "same-text-untagged+tagged":
+		// the SAME text untagged and under a tag (what several implementations write): neither entry may absorb the other
+		n = ap.NaturalLanguageValues{{Ref: ap.NilLangRef, Value: ap.Content(text)}, {Ref: "fr", Value: ap.Content(text)}}
+	case "same-text-two-tags":
+		n = ap.NaturalLanguageValues{{Ref: "en", Value: ap.Content(text)}, {Ref: "fr", Value: ap.Content(text)}}
 	case "map-cased-tags":
 		// BCP 47 tags with upper-case subtags: the tags of a map must come back exactly
 		n = ap.NaturalLanguageValues{{Ref: "zh-Hant", Value: ap.Content("繁體")}, {Ref: "en-US", Value: ap.Content(text)}, {Ref: "sr-Latn-RS", Value: ap.Content("tekst")}}
@@ -163,9 +169,9 @@ func init() {
 		Assumptions: []string{"texts are valid UTF-8 (the stated domain)"},
 		Bound: func(tier string) string {
 			if tier == "thorough" {
-				return "L = 3 for all positions/forms/channels (33 824 texts x 78); L = 4 for content in all forms and channels (1 048 576 texts x 15); every token at every offset B-4..B+1 for B in 16..4096 (content: all forms and channels; other positions: untagged via the methods), multi-byte/quote/backslash tokens at 8192 and 65536; every JSON decode is followed by two unrelated decodes before the comparison; ten further tokens (bidi isolates and overrides, zero-width space, BOM, NEL, NBSP, U+2029, ALM, a tag character) in texts of length <= 2 and in the boundary family; forms with exactly one untagged and one tagged entry; families added after round 5: DESIGN.md 8.11"
+				return "L = 3 for all positions/forms/channels (33 824 texts x 78); L = 4 for content in all forms and channels (1 048 576 texts x 15); every token at every offset B-4..B+1 for B in 16..4096 (content: all forms and channels; other positions: untagged via the methods), multi-byte/quote/backslash tokens at 8192 and 65536; every JSON decode is followed by two unrelated decodes before the comparison; ten further tokens (bidi isolates and overrides, zero-width space, BOM, NEL, NBSP, U+2029, ALM, a tag character) in texts of length <= 2 and in the boundary family; forms with exactly one untagged and one tagged entry, and with the same text in both entries; every Unicode scalar value (128 consecutive code points per text) in every position, three forms, both codecs; families added after round 5: DESIGN.md 8.11"
 			}
-			return "L = 3 for all positions/forms/channels (33 824 texts x 78); every token at every offset B-4..B+1 for B in 16..4096 (content: all forms and channels; other positions: untagged via the methods), multi-byte/quote/backslash tokens at 8192 and 65536; every JSON decode is followed by two unrelated decodes before the comparison; ten further tokens (bidi isolates and overrides, zero-width space, BOM, NEL, NBSP, U+2029, ALM, a tag character) in texts of length <= 2 and in the boundary family; forms with exactly one untagged and one tagged entry; families added after round 5: DESIGN.md 8.11"
+			return "L = 3 for all positions/forms/channels (33 824 texts x 78); every token at every offset B-4..B+1 for B in 16..4096 (content: all forms and channels; other positions: untagged via the methods), multi-byte/quote/backslash tokens at 8192 and 65536; every JSON decode is followed by two unrelated decodes before the comparison; ten further tokens (bidi isolates and overrides, zero-width space, BOM, NEL, NBSP, U+2029, ALM, a tag character) in texts of length <= 2 and in the boundary family; forms with exactly one untagged and one tagged entry, and with the same text in both entries; every Unicode scalar value (128 consecutive code points per text) in every position, three forms, both codecs; families added after round 5: DESIGN.md 8.11"
 		},
 		DeadlineQuick: 5 * time.Minute, DeadlineThorough: 40 * time.Minute,
 		Run: c06Run,
@@ -265,6 +271,28 @@ func c06Run(c *engine.Ctx) {
 				if len(got) != 2 || !tags["en"] || !(tags["-"] || tags[""]) {
 					t.Fail(key("map-tags"), "language tags after decode: %q (json %q)", got, js)
 				}
+			case "same-text-untagged+tagged", "same-text-two-tags":
+				first := "en"
+				if form == "same-text-untagged+tagged" {
+					first = "-"
+				}
+				var other []byte
+				for _, e := range got {
+					r := string(e.Ref)
+					if r == "" {
+						r = "-"
+					}
+					if r == first && !found {
+						gotText, found = e.Value, true
+					} else if r == "fr" {
+						other = e.Value
+					}
+				}
+				if len(got) != 2 || !tags["fr"] || !(tags[first] || first == "-" && tags[""]) {
+					t.Fail(key("map-tags"), "language tags after decode: %q (json %q)", got, js)
+				} else if !bytes.Equal(other, []byte(text)) {
+					t.Fail(key("text-changed"), "the second entry %q came back as %q (json %q)", text, other, js)
+				}
 			case "tagged+untagged":
 				for _, e := range got {
 					if e.Ref == ap.NilLangRef || e.Ref == "" {
@@ -324,6 +352,16 @@ func c06Run(c *engine.Ctx) {
 							oneText(p, form, ch, text, tname)
 						}
 					}
+				}
+			}
+		}
+	}
+	// every Unicode scalar value (all 1 112 064 of them, 128 consecutive code points per text), every position, three forms, both codecs
+	for _, rc := range universe.RuneChunks(128) {
+		for _, p := range c06Positions {
+			for _, form := range []string{"single-untagged", "map-second", "same-text-untagged+tagged"} {
+				for _, ch := range []string{"json-method", "gob"} {
+					oneText(p, form, ch, rc.S, rc.Name)
 				}
 			}
 		}
